@@ -57,6 +57,8 @@ def parseOp (toks : List String) : Option Op :=
   | ["delpod", ns, name] => some (.delPod (dec ns) (dec name))
   | ["node", name, region, zone] => some (.node { name := dec name, region := dec region, zone := dec zone })
   | ["delnode", name] => some (.delNode (dec name))
+  | ["ns", name, td] => some (.ns { name := dec name, td := td == "close" })
+  | ["delns", name] => some (.delNs (dec name))
   | _ => none
 
 /-! ### printing (byte-identical to harness/c15/main.go) -/
@@ -79,7 +81,8 @@ def clusterIP (name : String) : String :=
   | [] => "10.96.0.1"
 
 def showSvc (s : Svc) : String :=
-  let ports := ",".intercalate (s.ports.map fun p => p.1 ++ ":" ++ toString p.2)
+  let proto := fun (n : String) => if n.startsWith "http" then "HTTP" else if n.startsWith "tcp" then "TCP" else "UnsupportedProtocol"
+  let ports := ",".intercalate (s.ports.map fun p => p.1 ++ ":" ++ toString p.2 ++ ":" ++ proto p.1)
   let res := if s.kind == "ext" then "alias" else if s.kind == "hl" then "pass" else "eds"
   let addr := if s.kind == "cip" then clusterIP s.name else "0.0.0.0"
   let ext := if s.kind == "ext" then "ext.example.com" else ""
@@ -114,7 +117,7 @@ def showView (s : Ctl) : String :=
     | some e => showSvc kv.2 ++ "=" ++ showIEps (e.eps.getD []) ++ showSas e.sas
   "<" ++ " ".intercalate parts ++ ">"
 
-def kindsDefault : List String := ["node", "svc", "pod", "slice"]
+def kindsDefault : List String := ["node", "ns", "svc", "pod", "slice"]
 
 def parseOrder (tok : String) : List String :=
   let given := (decList tok).foldl (fun acc k => if kindsDefault.contains k && !acc.contains k then acc ++ [k] else acc) []
@@ -122,7 +125,7 @@ def parseOrder (tok : String) : List String :=
 
 /-- the final objects in the order in which the harness writes them for the cold start -/
 def sortedFinal (s : Ctl) : Ctl :=
-  { s with nodes := sortByKey (·.name) s.nodes, svcs := sortByKey Svc.key s.svcs,
+  { s with nodes := sortByKey (·.name) s.nodes, nss := sortByKey (·.name) s.nss, svcs := sortByKey Svc.key s.svcs,
            pods := sortByKey Pod.key s.pods, slices := sortByKey Slice.key s.slices }
 
 def stepD (s : State) (toks : List String) : State × String :=
@@ -156,59 +159,233 @@ open IstioModel.Wire
 def dropTopo (l : Labels) : Labels :=
   (normLabels l).filter fun kv => !(kv.1 == "topology.kubernetes.io/region" || kv.1 == "topology.kubernetes.io/zone")
 
-/-- classes for one endpoint present on both sides with different content -/
-def diffClasses (o c : IEp) : List String :=
-  (if o.health ≠ c.health then ["health-built-before-service-known"] else []) ++
-  (if o.locality ≠ c.locality then ["locality-built-before-node-change"] else []) ++
-  (if o.sa ≠ c.sa ∨ o.ns ≠ c.ns ∨ o.node ≠ c.node ∨ o.workload ≠ c.workload then ["identity-of-replaced-pod"] else []) ++
-  (if sortByKey (·.1) (dropTopo o.labels) ≠ sortByKey (·.1) (dropTopo c.labels) ∨ o.tls ≠ c.tls then ["labels-built-before-pod-label-change"] else [])
+/-- a symptom: what differs between the ordered run and the cold start, on which hostname, and the
+    object the differing endpoint was built from (pod key, node name, address ...) -/
+structure Symptom where
+  cls : String
+  host : String
+  obj : String
+  pod : String := ""
+  pod2 : String := ""     -- the pod of the same endpoint on the other side (conflicting duplicates across slices)
+  addr : String := ""
+  node : String := ""
+  deriving Repr
 
-/-- the slice endpoint (of the final objects) an address of a host comes from -/
+def mkSy (cls host obj : String) (pod : String := "") (pod2 : String := "") (addr : String := "") (node : String := "") : Symptom :=
+  { cls := cls, host := host, obj := obj, pod := pod, pod2 := pod2, addr := addr, node := node }
+
+def podKeyOf (e : IEp) : String := e.ns ++ "/" ++ e.workload
+
+/-- the slice endpoint (of the final objects) an address of a host comes from; with duplicates across
+    slices, one whose pod is known (it is the one that builds an endpoint) is preferred -/
 def sourceOf (final : Ctl) (host addr : String) : Option Ep :=
-  (final.slices.filter (fun sl => sl.host = host ∧ !sl.fqdn ∧ sl.svc ≠ "")).findSome? fun sl =>
-    (sl.addrPairs.find? (·.2 = addr)).map (·.1)
+  let cands := (final.slices.filter (fun sl => sl.host = host ∧ !sl.fqdn ∧ sl.svc ≠ "")).flatMap fun sl =>
+    (sl.addrPairs.filter (·.2 = addr)).map (·.1)
+  match cands.find? (fun ep => match ep.target with
+      | some (tns, tn) => (findPod final.pods tns tn).isSome
+      | none => true) with
+  | some ep => some ep
+  | none => cands.head?
 
-def classifyHost (final o c : Ctl) (host : String) : List String :=
+def untargeted (final : Ctl) (host addr : String) : Bool :=
+  match sourceOf final host addr with
+  | some ep => ep.target.isNone
+  | none => false
+
+/-- symptoms for one endpoint present on both sides with different content -/
+def diffSymptoms (host : String) (o c : IEp) : List Symptom :=
+  let pk := if o.workload ≠ "" then podKeyOf o else podKeyOf c
+  let pk2 := podKeyOf c
+  (if o.health ≠ c.health then [mkSy "health" host host pk pk2 o.addr] else []) ++
+  (if o.locality ≠ c.locality then [mkSy "locality" host (if o.node ≠ "" then o.node else c.node) pk pk2 o.addr] else []) ++
+  (if o.sa ≠ c.sa ∨ o.ns ≠ c.ns ∨ o.node ≠ c.node ∨ o.workload ≠ c.workload then [mkSy "identity" host pk pk pk2 o.addr] else []) ++
+  (if sortByKey (·.1) (dropTopo o.labels) ≠ sortByKey (·.1) (dropTopo c.labels) ∨ o.tls ≠ c.tls then
+    [mkSy "labels" host pk pk pk2 o.addr] else [])
+
+def symptomsHost (final o c : Ctl) (host : String) : List Symptom :=
   match hostView o host, hostView c host with
   | some vo, some vc =>
     let missing := vc.eps.filter fun e => !(vo.eps.any fun x => epKey x = epKey e)
     let extra := vo.eps.filter fun e => !(vc.eps.any fun x => epKey x = epKey e)
     let both := vo.eps.filterMap fun e => (vc.eps.find? fun x => epKey x = epKey e).map fun x => (e, x)
     let m := missing.map fun e =>
+      if untargeted final host e.addr then { cls := "untargeted", host := host, obj := e.addr } else
       match sourceOf final host e.addr with
       | some ep =>
         match ep.target with
-        | some (tns, tn) =>
-          match findPod final.pods tns tn with
-          | some p => if p.ip ≠ e.addr then "waiting-address-differs-from-pod-ip" else "missing-endpoint-other"
-          | none => "missing-endpoint-other"
-        | none => "missing-endpoint-other"
-      | none => "missing-endpoint-other"
+        | some (tns, tn) => { cls := "missing", host := host, obj := tns ++ "/" ++ tn : Symptom }
+        | none => { cls := "missing", host := host, obj := e.addr }
+      | none => { cls := "missing", host := host, obj := e.addr }
     let x := extra.map fun e =>
+      if untargeted final host e.addr then { cls := "untargeted", host := host, obj := e.addr } else
       match sourceOf final host e.addr with
       | some ep =>
         match ep.target with
-        | some (tns, tn) => if (findPod final.pods tns tn).isNone then "endpoint-of-deleted-pod-kept" else "extra-endpoint-other"
-        | none => "extra-endpoint-other"
-      | none => "extra-endpoint-other"
+        | some (tns, tn) => { cls := "extra", host := host, obj := tns ++ "/" ++ tn : Symptom }
+        | none => { cls := "extra", host := host, obj := e.addr }
+      | none => { cls := "extra-no-source", host := host, obj := e.addr }
     let d := both.flatMap fun p => if p.1 = p.2 then [] else
-      let cl := diffClasses p.1 p.2
-      if cl.isEmpty then ["content-other"] else cl
+      let cl := diffSymptoms host p.1 p.2
+      if untargeted final host p.1.addr then
+        -- an endpoint without targetRef: its health is its own, everything else comes from the pod found by IP
+        (cl.filter (·.cls == "health")) ++
+          (if (cl.any (·.cls != "health")) || cl.isEmpty then
+            [mkSy "untargeted" host p.1.addr (if p.1.workload ≠ "" then podKeyOf p.1 else podKeyOf p.2) (podKeyOf p.2) p.1.addr
+              (if p.1.node ≠ "" then p.1.node else p.2.node)] else [])
+      else if cl.isEmpty then [{ cls := "content-other", host := host, obj := p.1.addr }] else cl
     let a := if m.isEmpty ∧ x.isEmpty ∧ d.isEmpty ∧ sortStrings vo.sas.eraseDups ≠ sortStrings vc.sas.eraseDups
-      then ["accounts-kept-after-endpoints-removed"] else []
-    let sv := if vo.svc ≠ vc.svc then ["service-differs"] else []
+      then [{ cls := "accounts", host := host, obj := host : Symptom }] else []
+    let sv := if vo.svc ≠ vc.svc then [{ cls := "service-differs", host := host, obj := host : Symptom }] else []
     m ++ x ++ d ++ a ++ sv
   | none, none => []
-  | _, _ => ["service-set-differs"]
+  | _, _ => [{ cls := "service-set-differs", host := host, obj := host }]
 
-def classify (final o c : Ctl) : List String :=
-  let hosts := (akeys o.smap ++ akeys c.smap).eraseDups
-  sortStrings (hosts.flatMap (classifyHost final o c)).eraseDups
+def symptoms (final o c : Ctl) : List Symptom :=
+  ((akeys o.smap ++ akeys c.smap).eraseDups).flatMap (symptomsHost final o c)
+
+/-! #### causes: the steps of a history that fall outside `GoodStep`, named by the clause they violate
+
+`(clause, object)`; the clause names are the known-finding fingerprints. -/
+
+def refsPod (c : Ctl) (ns name : String) : Bool :=
+  c.slices.any fun sl => sl.addrPairs.any fun ea => ea.1.target == some (ns, name)
+
+/-- untargeted endpoints (no targetRef) of namespace `ns` at address `ip`: their pod is looked up in the
+    pod cache when the slice is handled and never refreshed -/
+def untargetedAt (c : Ctl) (ns ip : String) : Bool :=
+  ip ≠ "" && c.slices.any fun sl => sl.ns == ns && sl.addrPairs.any fun ea => ea.1.target.isNone && ea.2 == ip
+
+def causesOf (c : Ctl) (op : Op) : List (String × String) :=
+  match op with
+  | .slice v =>
+    match findSlice c.slices v.ns v.name with
+    | some o => if o.fqdn ≠ v.fqdn then [("entry-of-retyped-slice-kept", o.host)] else []
+    | none => []
+  | .svc v => if decide (SvcIrrelevant c v.host (alookup v.host c.smap) (some v)) then [] else
+      [("health-built-before-service-known", v.host)]
+  | .delSvc ns name =>
+    match findSvc c.svcs ns name with
+    | some o => if decide (SvcIrrelevant c o.host (some o) none) then [] else [("health-built-before-service-known", o.host)]
+    | none => []
+  | .pod v =>
+    let key := v.key
+    match findPod c.pods v.ns v.name with
+    | none =>
+      if v.phase = "F" then [] else
+      (if c.slices.any (fun sl => sl.addrPairs.any fun ea => ea.1.target == some (v.ns, v.name) && (ea.2 ≠ v.ip || v.ip = ""))
+        then [("waiting-address-differs-from-pod-ip", key)] else []) ++
+      (if untargetedAt c v.ns v.ip then [("untargeted-endpoint-pod-lookup-stale", v.ip)] else [])
+    | some o =>
+      (if v.phase = "F" then
+        (if refsPod c v.ns v.name then [("endpoint-of-deleted-pod-kept", key)] else [])
+       else
+        (if normLabels o.labels ≠ normLabels v.labels ∧ refsPod c v.ns v.name ∧ ¬ PodLabelGood c v then
+          [("labels-built-before-pod-label-change", key)] else []) ++
+        (if (o.sa ≠ v.sa ∨ o.node ≠ v.node) ∧ refsPod c v.ns v.name then [("identity-of-replaced-pod", key)] else [])) ++
+      (if untargetedAt c v.ns v.ip then [("untargeted-endpoint-pod-lookup-stale", v.ip)] else []) ++
+      (if o.ip ≠ v.ip ∧ untargetedAt c v.ns o.ip then [("untargeted-endpoint-pod-lookup-stale", o.ip)] else [])
+  | .delPod ns name =>
+    match findPod c.pods ns name with
+    | some o =>
+      (if refsPod c ns name then [("endpoint-of-deleted-pod-kept", o.key)] else []) ++
+      (if untargetedAt c ns o.ip then [("untargeted-endpoint-pod-lookup-stale", o.ip)] else [])
+    | none => []
+  | .node v =>
+    let nodes' := upsertBy (fun x => x.name = v.name) v c.nodes
+    if c.pods.any (fun p => localityOf nodes' p ≠ localityOf c.nodes p) then [("locality-built-before-node-change", v.name)] else []
+  | .delNode name =>
+    let nodes' := c.nodes.filter (·.name ≠ name)
+    if c.pods.any (fun p => localityOf nodes' p ≠ localityOf c.nodes p) then [("locality-built-before-node-change", name)] else []
+  | _ => []
+
+/-- hostnames whose index entry lost its endpoints but kept service accounts in this step -/
+def accountsKept (c c' : Ctl) : List (String × String) :=
+  c'.index.filterMap fun kv =>
+    if kv.2.eps.isNone && !kv.2.sas.isEmpty &&
+        (match alookup kv.1 c.index with | some e => e.eps.isSome | none => true) then
+      some ("accounts-kept-after-endpoints-removed", kv.1)
+    else none
+
+/-- inside a hold window the handlers see later versions of the pod than the one their event carries:
+    whether a label edit is recomputed cannot be read off the synchronous flattening, so every label
+    edit on a referenced pod counts -/
+def heldLabelCause (c : Ctl) (op : Op) : List (String × String) :=
+  match op with
+  | .pod v =>
+    match findPod c.pods v.ns v.name with
+    | some o => if normLabels o.labels ≠ normLabels v.labels ∧ (refsPod c v.ns v.name ∨ untargetedAt c v.ns v.ip) then
+        [("labels-built-before-pod-label-change", v.key)] else []
+    | none => []
+  | _ => []
+
+/-- the version of a pod its handler will see when the window is released: the last write to it before
+    the next `release` (`none`: not written again) -/
+def latestPodInWindow : List Op → String → String → Option Pod
+  | [], _, _ => none
+  | .release :: _, _, _ => none
+  | .pod v :: r, ns, name =>
+    if v.ns = ns ∧ v.name = name then (match latestPodInWindow r ns name with | some w => some w | none => some v)
+    else latestPodInWindow r ns name
+  | _ :: r, ns, name => latestPodInWindow r ns name
+
+/-- a pod event handled inside a window sees that later version: does it still carry the awaited IP? -/
+def heldArrivalCause (c : Ctl) (op : Op) (rest : List Op) : List (String × String) :=
+  match op with
+  | .pod v =>
+    match latestPodInWindow rest v.ns v.name with
+    | some w => (causesOf { c with pods := c.pods.filter (fun p => !(p.ns = v.ns ∧ p.name = v.name)) } (.pod w)).filter
+        (·.1 == "waiting-address-differs-from-pod-ip")
+    | none => []
+  | _ => []
+
+/-- all causes along a history; the stores-ahead schedule of a `hold` window is approximated by its
+    synchronous flattening (plus `heldLabelCause`) -/
+def causesAlong : Ctl → Bool → List Op → List (String × String)
+  | _, _, [] => []
+  | c, _, .hold :: r => causesAlong c true r
+  | c, _, .release :: r => causesAlong c false r
+  | c, held, op :: r =>
+    let c' := (stepC c op).getD c
+    causesOf c op ++ (if held then heldLabelCause c op ++ heldArrivalCause c op r else []) ++ accountsKept c c' ++
+      causesAlong c' held r
+
+/-- which cause explains a symptom: the clause and the object must both match -/
+def explains (final : Ctl) (sy : Symptom) (cause : String × String) : Bool :=
+  -- a stale or missing entry of one of the two pods involved explains any content difference of the endpoint
+  let stalePod := (cause.1 == "endpoint-of-deleted-pod-kept" || cause.1 == "identity-of-replaced-pod" ||
+      cause.1 == "waiting-address-differs-from-pod-ip") && (cause.2 == sy.pod || cause.2 == sy.pod2) ||
+    -- ... as does a duplicate of the address without targetRef
+    (cause.1 == "untargeted-endpoint-pod-lookup-stale" && sy.addr ≠ "" && cause.2 == sy.addr)
+  match sy.cls with
+  | "health" => (cause.1 == "health-built-before-service-known" && cause.2 == sy.host) || stalePod
+  | "locality" => (cause.1 == "locality-built-before-node-change" && cause.2 == sy.obj) || stalePod
+  | "labels" => (cause.1 == "labels-built-before-pod-label-change" && (cause.2 == sy.pod || cause.2 == sy.pod2)) || stalePod
+  | "identity" => stalePod
+  | "extra" => cause.1 == "endpoint-of-deleted-pod-kept" && cause.2 == sy.obj
+  | "missing" => cause.1 == "waiting-address-differs-from-pod-ip" && cause.2 == sy.obj
+  | "accounts" => cause.1 == "accounts-kept-after-endpoints-removed" && cause.2 == sy.host
+  | "untargeted" => (cause.1 == "untargeted-endpoint-pod-lookup-stale" && cause.2 == sy.obj) || stalePod ||
+      (cause.1 == "locality-built-before-node-change" && sy.node ≠ "" && cause.2 == sy.node) ||
+      (cause.1 == "labels-built-before-pod-label-change" && (cause.2 == sy.pod || cause.2 == sy.pod2))
+  | "extra-no-source" => cause.1 == "entry-of-retyped-slice-kept" && cause.2 == sy.host
+  | _ => let _ := final; false
+
+/-- the verdict for a diverging case: every symptom with the cause (a step outside `GoodStep`, by
+    clause name) that explains it, or `unexplained:<symptom>` -/
+def classify (final o c : Ctl) (causes : List (String × String)) : List String :=
+  let out := (symptoms final o c).map fun sy =>
+    match causes.find? (explains final sy) with
+    | some cause => cause.1
+    | none => "unexplained:" ++ sy.cls
+  sortStrings out.eraseDups
 
 /-- classify stream state: the model state and the operations of the case so far (reversed) -/
 structure CState where
   s : State := {}
   ops : List Op := []
+  /-- causes observed on the actual (possibly stores-ahead) run: index entries that lost their endpoints
+      and kept their service accounts -/
+  seen : List (String × String) := []
 
 /-- does the history lie in the class of `convergence_any_order` (every step good)?  `-` for
     histories with `hold` (outside the class by definition) -/
@@ -238,8 +415,22 @@ def stepClassify (cs : CState) (toks : List String) : CState × String :=
   | ["cold", order] =>
     let s' := release cs.s
     let cold := coldRun (finalOps (sortedFinal s'.c) (parseOrder order))
-    let cls := classify s'.c s'.c cold.c
     let ops := cs.ops.reverse
+    let coldOps := finalOps (sortedFinal s'.c) (parseOrder order)
+    -- in the cold start every store is full before the first handler runs: what matters is whether the slices
+    -- are handled before the Services are in servicesMap, resp. before the pods are in the pod cache
+    let ord := parseOrder order
+    let before := fun (a b : String) => (ord.idxOf a) < (ord.idxOf b)
+    let fin := s'.c
+    let coldCauses :=
+      (if before "slice" "svc" then fin.svcs.filterMap fun sv =>
+          if decide (SvcIrrelevant fin sv.host none (some sv)) then none else some ("health-built-before-service-known", sv.host)
+        else []) ++
+      (if before "slice" "pod" then fin.pods.filterMap fun p =>
+          if untargetedAt fin p.ns p.ip then some ("untargeted-endpoint-pod-lookup-stale", p.ip) else none
+        else [])
+    let _ := coldOps
+    let cls := classify s'.c s'.c cold.c (causesAlong {} false ops ++ coldCauses ++ cs.seen ++ accountsKept cs.s.c s'.c)
     let g := goodTok ops
     let verdict := if showView s'.c = showView cold.c then "same" else
       "cls=" ++ (if cls.isEmpty then "unexplained" else ",".intercalate cls)
@@ -253,6 +444,6 @@ def stepClassify (cs : CState) (toks : List String) : CState × String :=
       | _ => match parseOp toks with
         | some op => if (applyOp cs.s op).isSome then op :: cs.ops else cs.ops
         | none => cs.ops
-    ({ s := s', ops := ops }, "-")
+    ({ s := s', ops := ops, seen := cs.seen ++ accountsKept cs.s.c s'.c }, "-")
 
 end IstioModel.C15
